@@ -11,9 +11,9 @@ if [ "$cmd" = keep ]; then
   [ -s /tmp/seeded-$id.diff ] || { echo "no diff in $wt"; exit 2; }
   echo "== demo with change"; /venv/bin/python demo_$prop.py; with=$?
   echo "== pytest with change"; /venv/bin/python -m pytest -q -p no:cacheprovider 2>&1 | tail -2
-  git stash -q
+  git diff > /tmp/seeded-keep-$id.patch; git apply -R /tmp/seeded-keep-$id.patch
   echo "== demo without change"; /venv/bin/python demo_$prop.py; without=$?
-  git stash pop -q
+  git apply /tmp/seeded-keep-$id.patch; rm -f /tmp/seeded-keep-$id.patch
   echo "demo exit with=$with without=$without"
   [ "$with" = 1 ] && [ "$without" = 0 ] || { echo "demo does not discriminate"; exit 1; }
   mkdir -p "$ROOT/seeded/$id"
